@@ -233,6 +233,15 @@ func c14payload(s *c14state, choose verifseam.Chooser) (signP, verifyP string, f
 	if err := signature.Verify(sigCtx, sig, k.Verifier, sigWithInv(cs, s.Repo), signature.WithEnv(venv)); err != nil {
 		return signP, verifyP, sig.SignedFields, true, "signed with WithDebugSigning, verified without: " + err.Error()
 	}
+	// the record's field list in another order names the same payload
+	rev := *sig
+	rev.SignedFields = append([]string{}, sig.SignedFields...)
+	for i, j := 0, len(rev.SignedFields)-1; i < j; i, j = i+1, j-1 {
+		rev.SignedFields[i], rev.SignedFields[j] = rev.SignedFields[j], rev.SignedFields[i]
+	}
+	if err := signature.Verify(sigCtx, &rev, k.Verifier, sigWithInv(cs, s.Repo), signature.WithEnv(venv)); err != nil {
+		return signP, verifyP, sig.SignedFields, true, "field list reversed: " + err.Error()
+	}
 	if choose == nil && len(s.Trail) <= 1 {
 		plain, err := signature.Sign(sigCtx, k.Sign, sigWithInv(cs, s.Repo), signature.WithEnv(penv))
 		if err == nil {
